@@ -10,6 +10,7 @@ CONSTANT DocMenu <- DMa2
 CONSTANT Lims <- L012
 CONSTANT MaxSteps = 7
 CONSTANT Thin = 40
+CONSTANT KeepRoleHist = FALSE
 CONSTANT PageGap = TRUE
 SPECIFICATION Spec
 VIEW view
